@@ -60,11 +60,15 @@ Step12 == /\ Check(tid, l, "operation-enabled-in-spec:" \o Ev.op, Enabled(Ev))
 PredOf(sm, tr) ==   \* prediction token of the prepared stage for an experiment with these names
     LET r == CHOOSE r \in 1..NR : Fix.rows[r].s = sm /\ {Fix.rows[r].t[a] : a \in 1..Arity} = {tr[a] : a \in 1..Arity}
     IN Fix.rows[r].pt
+\* the mappings of the prepared stage are taken from the log (T.prepared: the projection of the real prepared screen): C03 is about
+\* their STABILITY through the lifecycle, whatever numbering the encoder chose (that is C01)
+PSmap == T.prepared.smap
+PTmap == T.prepared.tmap
 Ok03(a) == ~a.live \/
-    /\ a.smap = Prepared.smap /\ a.tmap = Prepared.tmap
-    /\ a.sids = [x \in 1..Len(a.sample) |-> Lookup1(a.sample[x], Prepared.smap)]
-    /\ a.tids = [x \in 1..Len(a.treat) |-> [c \in 1..Arity |-> Lookup(a.treat[x][c], Prepared.tmap)]]
-    /\ a.nut >= NUniqueTreatments(Prepared.tmap) /\ a.nus >= NUniqueSamples(Prepared.smap)
+    /\ a.smap = PSmap /\ a.tmap = PTmap
+    /\ a.sids = [x \in 1..Len(a.sample) |-> Lookup1(a.sample[x], PSmap)]
+    /\ a.tids = [x \in 1..Len(a.treat) |-> [c \in 1..Arity |-> Lookup(a.treat[x][c], PTmap)]]
+    /\ a.nut >= NUniqueTreatments(PTmap) /\ a.nus >= NUniqueSamples(PSmap)
     /\ (Arity <= 2 => a.pred = [x \in 1..Len(a.sample) |-> PredOf(a.sample[x], a.treat[x])])
 Step03 == /\ Check(tid, l, "train-ids-follow-prepared-mapping-after-" \o Ev.op, Ok03(Ev.after.train))
           /\ Check(tid, l, "test-ids-follow-prepared-mapping-after-" \o Ev.op, Ok03(Ev.after.test))
